@@ -398,13 +398,15 @@ Qed.
 
 End WF.
 
-(* a slice model whose last element is keyed restricts to the elements' non-zero keys *)
-Lemma slice_match_spec l ks : key_match (MSlice l) ks = true -> last l 0 <> 0 ->
+(* a slice model with a keyed element (in any position) restricts to the elements' non-zero keys *)
+Lemma slice_match_spec l ks : key_match (MSlice l) ks = true -> (exists k, In k l /\ k <> 0) ->
   In (hd 0 ks) l /\ hd 0 ks <> 0.
 Proof.
-  cbn [key_match]. intros H Hl. apply orb_prop in H. destruct H as [H|H]; [apply Z.eqb_eq in H; congruence|].
-  apply existsb_exists in H. destruct H as (k & Hk & E). apply andb_prop in E. destruct E as [E1 E2].
-  apply negb_true_iff, Z.eqb_neq in E1. apply Z.eqb_eq in E2. subst k. auto.
+  cbn [key_match]. intros H (k0 & Hk0 & Nz). apply orb_prop in H. destruct H as [H|H].
+  - apply negb_true_iff in H. assert (X : existsb (fun k => negb (k =? 0)) l = true); [|congruence].
+    apply existsb_exists. exists k0. split; [exact Hk0|]. apply negb_true_iff. now apply Z.eqb_neq.
+  - apply existsb_exists in H. destruct H as (k & Hk & E). apply andb_prop in E. destruct E as [E1 E2].
+    apply negb_true_iff, Z.eqb_neq in E1. apply Z.eqb_eq in E2. subst k. auto.
 Qed.
 
 (* ---- rows ------------------------------------------------------------------------------------------------ *)
